@@ -144,6 +144,11 @@ func (p *PKCS7PaddingWriter) Final() error {
 	if unpadding > p.blockSize || unpadding == 0 {
 		return errors.New("非法的PKCS7填充")
 	}
+	for _, v := range b[length-unpadding:] {
+		if int(v) != unpadding {
+			return errors.New("非法的PKCS7填充")
+		}
+	}
 	_, err := p.out.Write(b[:(length - unpadding)])
 	return err
 }
